@@ -815,6 +815,11 @@ int dispatch_printed_messages(const char* messages,
 
                     ok = (*dispatcher)(messagebuf);
                     //printf("%s, %s, %d -> %s\n", messagebuf, portname, nargs, ok ? "yes": "no");
+
+                    // a line without arguments is one message, too
+                    // (the iterator has nothing to advance over)
+                    if(nargs <= 0)
+                        break;
                 }
             }
         }
